@@ -28,6 +28,7 @@ THEOREMS = [{'name': f'Props.C07.{n}', 'module': M} for n in [
     {'name': 'Model.elimination_sameOutcome', 'module': 'MorphKgc.Lemmas.JoinElimSound'}]
 # hypothesis-free theorems of the repaired shapes the translator reads from /repo now (Props/C07Now.lean)
 THEOREMS += [{'name': f'Props.C07.{n}', 'module': 'MorphKgc.Props.C07Now'} for n in ['C07_current_elim_shape', 'C07_current_object_query', 'C07_elimination_current', 'C07_shared_model_is_current', 'C07_objects_seen_current']]
+LINKS = [{'target': 'MorphKgc.Props.C07Doc', 'needs': ['MorphKgc.Props.C01'], 'theorems': [{'name': f'Props.C07Doc.{n}', 'module': 'MorphKgc.Props.C07Doc'} for n in ['C07_doc_refinement', 'C07_doc_no_raise', 'C07_doc_no_extra', 'C07_doc_no_missing', 'C07_doc_refinement_extends_C01', 'ref_combo_refines', 'Cw.same_lsv_other_source_engine', 'Cw.same_lsv_other_source_spec', 'Cw.same_lsv_other_source_rest', 'Cw.no_condition_engine', 'Cw.no_condition_spec']]}]
 RULE = ('a child triples map with one referencing object map (1-3 join conditions, optional graph maps, optional second plain '
         'predicate-object map) and a parent triples map (subject map over join columns only / other columns / both / constant; optional '
         'own predicate-object map) over two tables with duplicate keys on both sides, NULL keys ("" / nan / JSON null / SQL NULL), '
